@@ -29,7 +29,8 @@ func checkExternal(v map[string]any, p tree.Path) error {
 	if !ok {
 		return nil
 	}
-	if !b.(bool) {
+	if external, ok := b.(bool); !ok || !external {
+		// a non boolean value (not interpolated yet) is reported by schema validation / decoding
 		return nil
 	}
 
